@@ -16,7 +16,8 @@ from concurrent.futures import ThreadPoolExecutor
 import core
 from stages.common import *
 
-MON_C10 = {"OnlyVerifiedInOrder", "CheckExact", "RepairExact", "Converges"}
+MON_C10 = {"OnlyVerifiedInOrder", "CheckExact", "RepairExact", "Converges", "RepairLosesRound"}
+MON_REPAIR_ABORT = {"RepairLosesRound"}
 # NothingFromLiars ("nothing is stored from a stream after it delivered a lie") is the anchor mechanism, not the
 # statement: it can fire while every stored beacon verified and was in chain order, so it is reported as a note.
 MON_NOTE = {"NothingFromLiars"}
@@ -117,6 +118,7 @@ def run(ctx, monitors):
         {"cfg": "MC_SyncClient_follow_chained.cfg"},
         {"cfg": "MC_SyncClient_follow_unchained.cfg"},
         {"cfg": "MC_SyncClient_repair.cfg"},
+        {"cfg": "MC_SyncClient_repair_interrupt.cfg"},
         {"cfg": "MC_SyncClient_run_live.cfg"},
     ]
     if not q:
@@ -129,6 +131,8 @@ def run(ctx, monitors):
             # sensitivity: PinsOperatorHash = FALSE (the follower trusts the hash field of a peer's chain-info packet);
             # TLC's counterexample (a LyingInfo peer gets its key pinned) is replayed on the real StartFollowChain
             {"cfg": "MC_SyncClient_follow_peerhash.cfg", "expect_ok": False},
+            # sensitivity: ResyncDeletesFirst = TRUE (delete, then write): an interrupted repair loses a round
+            {"cfg": "MC_SyncClient_repair_delput.cfg", "expect_ok": False},
             {"cfg": "MC_SyncClient_run_big.cfg", "timeout": 1500, "workers": 8},
             {"cfg": "MC_SyncClient_race_big.cfg", "timeout": 1500, "workers": 8},
             {"cfg": "MC_SyncClient_follow_chained_big.cfg", "timeout": 900},
@@ -208,3 +212,36 @@ def run(ctx, monitors):
         if slow:
             ctx.inconclusive.append("%s: %d scenario(s) did not become quiescent within the real-time cap: %s" % (test, len(slow), slow[0]))
     return ok_all
+
+
+def _judge(ctx, test, out, alarms, monitors):
+    for a in alarms:
+        if a["mon"] in monitors:
+            sig = {"stage": "syncclient", "mon": a["mon"], "mode": a["mode"], "chained": a["chained"], "detail": a["detail"]}
+            ctx.alarm(sig, "%s (%s): monitor %s failed at trace line %s of %s: %s [scenario %s, %s]" % (
+                test, a["mode"], a["mon"], a["line"], out, a["detail"], a["scenario"],
+                "chained" if a["chained"] else "unchained"))
+    drift = [a for a in alarms if a["mon"] == "Conformance"]
+    slow = [a for a in alarms if a["mon"] == "Inconclusive"]
+    if drift:
+        ctx.inconclusive.append("%s: %d conformance differences between the code and SyncClient.tla (model drift), first: %s"
+                                % (test, len(drift), drift[0]))
+    if slow:
+        ctx.inconclusive.append("%s: %d scenario(s) did not become quiescent within the real-time cap: %s" % (test, len(slow), slow[0]))
+
+
+def run_repair_abort(ctx, monitors=MON_REPAIR_ABORT):
+    """Light entry point (used by C02 as well): only the interrupted-correction scenarios - the context of a chain
+    repair is cancelled between two store operations / a store write fails, on trimmed bolt, untrimmed bolt and memdb,
+    chained and unchained - on the real SyncManager, judged by RepairLosesRound in Trace_SyncClient.tla."""
+    out = "repair-abort.ndjson"
+    trace = run_harness(ctx, "./internal/chain/beacon", "TestVerifSyncClient", out,
+                        env={"VERIF_ONLY": "repair-abort", "GODEBUG": "randseednop=0"}, timeout=600)
+    ok, alarms, r = ctx.validate_trace("Trace_SyncClient", "Trace_SyncClient.cfg", trace, name="trace-repair-abort", timeout=600)
+    if ok:
+        ctx.traces += count_lines(trace, "Reset")
+    ctx.sample({"stage": "syncclient/repair-abort", "scenarios": count_lines(trace, "Reset"), "trace_head": sample_lines(trace, 2, 300)})
+    _judge(ctx, "TestVerifSyncClient[repair-abort]", out, alarms, monitors)
+    ctx.assumptions.append("an interrupted chain repair = context cancelled at sync.beforePut or right after any store operation "
+                           "of the correction, or one store write failing; bolt (trimmed, untrimmed) and memdb back-ends")
+    return ok
